@@ -12,7 +12,7 @@ import subprocess
 
 import vlib
 
-ROUNDS = {"quick": (3, 6), "thorough": (8, 30)}   # (runs, rounds per run)
+ROUNDS = {"quick": (4, 8), "thorough": (10, 30)}   # (runs, rounds per run)
 
 
 def run(ctx):
@@ -25,7 +25,9 @@ def run(ctx):
     for i in range(runs):
         wd = ctx.sub("run%d" % i)
         out = os.path.join(wd, "trace.ndjson")
-        p = subprocess.run([binary, out, str(ctx.seed * 100 + i), str(rounds)], cwd=wd, capture_output=True, text=True, timeout=900)
+        # every other run at page capacities 3/3: catalog and table pages split within the first statements
+        caps = ["3", "3"] if i % 2 == 1 else ["0", "0"]
+        p = subprocess.run([binary, out, str(ctx.seed * 100 + i), str(rounds)] + caps, cwd=wd, capture_output=True, text=True, timeout=900)
         try:
             summ = json.loads(p.stdout.strip().splitlines()[-1])
         except Exception:
